@@ -149,41 +149,66 @@ def predicate(R, ctx):
     f = ctx.f
     rd = 'parameters::file_spec::FileSpec::read_dir_related_files'
     ff = 'parameters::file_spec::FileSpec::filter_files'
-    # regular file
-    c = closure_of(ctx, rd, lambda x: any(callee_name(t) == 'std::path::Path::is_file' for bb, t in x.calls()))
-    ok = False
-    if len(c) == 1:
-        rows = FDI(f).run(c[0].path)
-        ok = len(rows) == 1 and isinstance(rows[0].result, Sym) and rows[0].result.x[0] == 'call' and rows[0].result.x[1] == 'std::path::Path::is_file' and 'entry' in repr(rows[0].result.x)
-    R.check('R14.2', 'conjunct:regular-file', ok, "filter(|entry| entry.path().is_file())", "the listing no longer keeps regular files only (a sub-directory named like a log file would be treated as one)",
-            where=f.bodies[rd].loc())
-    used = uses_filter(ctx, rd, c[0].path if c else None)
-    R.check('R14.2', 'conjunct:regular-file|applied', used, "the closure is the argument of Iterator::filter in the listing pipeline", "the is_file closure is not applied as a filter", where=f.bodies[rd].loc())
-
-    # name starts with the fixed part
-    c = closure_of(ctx, rd, lambda x: any(callee_name(t) == 'core::str::<impl str>::starts_with' for bb, t in x.calls()))
-    ok = False
-    why = 'closure not found'
-    if len(c) == 1:
-        rows = FDI(f).run(c[0].path)
-        ok = True
-        for r in rows:
-            fn_ = r.get('variant(std::path::Path::file_name(&path))')
-            if r.undecided:
-                ok, why = False, r.undecided
-            elif fn_ == 'None':
-                ok = ok and isinstance(r.result, Const) and r.result.v is False
-            else:
-                x = getattr(r.result, 'x', None)
-                good = isinstance(x, tuple) and x[0] == 'call' and x[1] == 'core::str::<impl str>::starts_with' and 'file_name' in repr(x[2][0]) and "'path'" in repr(x[2][0]) and \
-                    'arg1' in repr(x[2][1])
-                if not good:
-                    ok, why = False, f"result {r.result!r}"
-    R.check('R14.2', 'conjunct:fixed-part-prefix', ok and uses_filter(ctx, rd, c[0].path if c else None), "file_name.starts_with(fixed_name_part)",
-            f"the listing does not require the file name to start with the fixed name part ({why})", where=f.bodies[rd].loc())
-
+    listing_table(R, ctx, rd)
     family_table(R, ctx, ff)
     infix_tables(R, ctx)
+
+
+def listing_table(R, ctx, rd):
+    """read_dir_related_files as a whole: a directory entry is listed iff it is a regular file whose file name starts with the
+    fixed name part (closures, named helpers or a loop - the rows are the same)"""
+    import fdi_iter
+    f = ctx.f
+    b = f.bodies[rd]
+    NEXTRX = r'as std::iter::Iterator>::next$'
+    EFF = [r'FileSpec::fixed_name_part$', r'^std::fs::read_dir$', NEXTRX]
+    I = FDI(f, effects=EFF, no_inline=EFF[:1], models=fdi_iter.vec_models(), loop_k=1, max_steps=30000)
+    rows = I.run(rd, arg_names=['self'])
+    bad = {}
+    n = kept_rows = 0
+    for r in rows:
+        if r.undecided:
+            raise CheckError(f"R14.2 listing table UNDECIDED: {r.undecided}")
+        present = [v for a, v in r.cond if r.atom_info.get(a, {}).get('kind') == 'variant' and isinstance(T.strip_refs(r.atom_info[a]['of']), tuple)
+                   and T.strip_refs(r.atom_info[a]['of'])[0] == 'eff' and re.search(NEXTRX, T.strip_refs(r.atom_info[a]['of'])[1])]
+        if present.count('Some') != 1:
+            continue
+        if not (isinstance(r.result, Agg) and r.result.adt == 'vec'):
+            raise CheckError(f"R14.2 listing table: result is not a list value ({r.result!r})")
+        kept = len(r.result.fields) == 1
+        v = {'is_file': None, 'name': None, 'prefix': None}
+        for a, val in r.cond:
+            info = r.atom_info.get(a, {})
+            x = info.get('x') if info.get('kind') != 'variant' else info.get('of')
+            xs = T.strip_refs(x)
+            if not (isinstance(xs, tuple) and xs[0] == 'call'):
+                continue
+            if xs[1] == 'std::path::Path::is_file' and T.eff_indices(xs, NEXTRX):
+                v['is_file'] = bool(val)
+            elif info.get('kind') == 'variant' and xs[1] == 'std::path::Path::file_name' and T.eff_indices(xs, NEXTRX):
+                v['name'] = (val == 'Some')
+            elif re.search(r'str>?::starts_with$', xs[1]) and len(xs[2]) >= 2 and 'file_name' in repr(xs[2][0]) and T.eff_indices(xs[2][0], NEXTRX) and \
+                    T.eff_indices(xs[2][1], r'fixed_name_part$') and not T.eff_indices(xs[2][0], r'fixed_name_part$'):
+                v['prefix'] = bool(val)
+        conj = {'regular-file': v['is_file'], 'fixed-part-prefix': T.and3(v['name'], True if v['name'] is False else v['prefix'])}
+        if v['name'] is False:
+            conj['fixed-part-prefix'] = False
+        exp = T.and3(*conj.values())
+        n += 1
+        if kept:
+            kept_rows += 1
+            if not T.eff_indices(_x(r.result.fields[0]), NEXTRX):
+                bad.setdefault('regular-file', "the path listed is not the path of the directory entry")
+            for c, val in conj.items():
+                if val is not True:
+                    bad.setdefault(c, {'regular-file': "the listing no longer keeps regular files only (a sub-directory named like a log file would be treated as one)",
+                                       'fixed-part-prefix': "the listing does not require the file name to start with the fixed name part"}[c])
+        elif exp is True:
+            bad.setdefault('fixed-part-prefix', "an entry satisfying both conjuncts is not listed")
+    if not bad and (kept_rows < 1 or n < 3):
+        raise CheckError(f"R14.2 listing table: form not recognised ({n} one-entry rows, {kept_rows} accepting)")
+    for c in ('regular-file', 'fixed-part-prefix'):
+        R.check('R14.2', f"conjunct:{c}", c not in bad, f"holds on {n} one-entry rows ({kept_rows} accepting)", f"directory listing: {bad.get(c)}", where=b.loc(), sample={'rows': n})
 
 
 def family_table(R, ctx, ff):
@@ -265,7 +290,10 @@ def family_table(R, ctx, ff):
             fi = [e for e in r.effects if e[0].endswith('filter_infix')]
             if fi:
                 arg = r.long(fi[0][1][1])
-                if 'file_stem' not in arg or (not re.search(r"find\(.*'\.'", arg) and 'RangeTo' not in arg):
+                so = next((val for a_, val in r.cond if a_.startswith('variant(') and re.search(r"str>?::split_once\(.*'\.'\)\)?$", r.long(a_))), None)
+                dot_ok = bool(re.search(r"find\(.*'\.'", arg)) or 'RangeTo' in arg or (so == 'None') or \
+                    (so == 'Some' and re.search(r"split_once\(.*'\.'\)\.0\.0$", arg) is not None)
+                if 'file_stem' not in arg or not dot_ok:
                     flag('infix-predicate', f"the infix predicate is not applied to the stem text up to the first '.': {arg[:160]}")
                 if v['fixed_empty'] is False and 'strip_prefix' not in arg:
                     flag('infix-predicate', "the infix text is not the part after the fixed name part and separator")
